@@ -62,6 +62,9 @@ def harness_bin(profile):
     return os.path.join(TARGET, "debug" if profile == "dev" else "release", "bioseq-harness")
 
 
+DERIVE_FALLBACK = {}
+
+
 def build_harness(profile):
     """(Re)build the harness against /repo's current working tree. Returns (ok, message)."""
     if profile in _built:
@@ -77,6 +80,14 @@ def build_harness(profile):
     p = sh(cmd, cwd=HARNESS, timeout=1500, check=False)
     ok = p.returncode == 0 and os.path.exists(harness_bin(profile))
     msg = "" if ok else (p.stderr[-6000:] or p.stdout[-2000:])
+    if not ok:
+        # the derive crate's internal functions are included by path; if only they stopped fitting
+        # (renamed / new signature), fall back to tables synthesised from their specification and let
+        # the generated programs validate the compiled macros
+        p2 = sh(cmd + ["--no-default-features"], cwd=HARNESS, timeout=1500, check=False)
+        if p2.returncode == 0 and os.path.exists(harness_bin(profile)):
+            ok, msg = True, ""
+            DERIVE_FALLBACK[profile] = (p.stderr[-1500:] or p.stdout[-800:])
     _built[profile] = (ok, msg)
     return _built[profile]
 
